@@ -22,14 +22,14 @@ PROPERTY = "C42"
 LEVEL = "exploration"
 BUDGET = {"quick": (1500, 12), "thorough": (40_000, 200)}
 WORKERS = {"quick": 4, "thorough": 16}
-REQUIRED = ["accepted", "verdict", "variant_accepted", "variant_changes_verdict"]
+REQUIRED = ["accepted", "verdict", "variant_accepted", "variant_changes_verdict", "empty_matching_regex_on_empty_body"]
 ENGINE = "direct"
 TECHNIQUE = "differential against an independent three-valued reference evaluator of the documented grammar"
 RULE = (
     "case = one random filter AST (depth<=5, all 32 documented operators, !, &, |, juxtaposition) rendered once with random "
     "spacing/parentheses/quoting and evaluated on a fresh pool of 12 flows (http, http+response, websocket, tcp, udp, dns) whose "
-    "facts the generator fixed; regex arguments are derived from substrings of what the operator looks at (with case flips, "
-    "wildcards, anchors, alternation) so leaves are true on some flows; in the same process the tree is then parsed again up to twice with "
+    "facts the generator fixed (bodies missing / present-but-empty / non-empty, empty header values, empty marker/comment); regex arguments are derived from substrings of what the operator looks at (with case flips, "
+    "wildcards, anchors, alternation; 12% are regexes that match the empty string: ^$ .* x? \\A\\Z (?:) ...) so leaves are true on some flows; in the same process the tree is then parsed again up to twice with "
     "regex arguments that differ only in letter case (\\d/\\D \\w/\\W \\s/\\S \\b/\\B swapped, literal letters re-cased) and sibling operators, and "
     "evaluated on the same flows (a verdict must not depend on what was parsed before); distinct = (connective kinds, depth, leaf kinds, quoting "
     "styles, juxtaposition, redundant parentheses, tight spacing) signature; non-trivial = depth>=2 and the reference verdict is "
@@ -96,7 +96,8 @@ def classify_verdict(ast, facts, real):
         joined block differs from the documented per-'name: value'-line verdict;
     (2) a regex argument containing a literal TAB (always rendered quoted).
     A mismatch is explained only if flipping exactly the leaves of one condition (or, failing that, of both) reproduces
-    the real verdict."""
+    the real verdict -- or leaves the verdict undetermined (another leaf is undocumented and now decides), in which case
+    the real verdict no longer contradicts the documented semantics."""
     hdr, tab = {}, {}
     for lf in ref.leaves(ast):
         if isinstance(lf[2], str) and "\t" in lf[2]:
@@ -108,16 +109,16 @@ def classify_verdict(ast, facts, real):
             block = ref.header_block_verdicts(lf[1], lf[2], facts)
             if line is not None and (not line) in block:
                 hdr[id(lf)] = not line
-    if hdr and ref.ev(ast, facts, hdr) == real:
+    if hdr and ref.ev(ast, facts, hdr) in (real, None):
         return [M_HEADER]
     if tab:
         # a tab leaf may flip or not (depends on what the expanded blanks match): try every subset of at most 3 such leaves
         ids = list(tab)[:3]
         for mask in range(1, 2 ** len(ids)):
             sub = {i: tab[i] for n, i in enumerate(ids) if mask >> n & 1}
-            if ref.ev(ast, facts, sub) == real:
+            if ref.ev(ast, facts, sub) in (real, None):
                 return [M_TAB]
-            if hdr and ref.ev(ast, facts, {**hdr, **sub}) == real:
+            if hdr and ref.ev(ast, facts, {**hdr, **sub}) in (real, None):
                 return [M_HEADER, M_TAB]
     return [None]
 
@@ -136,10 +137,13 @@ def sample_of(text, ast, pool, verdicts):
 def evaluate(ctx, text, ast, flt, pool, flows, parsed_before=None):
     """Compare the parsed filter with the reference on every flow of the pool; -> reference verdicts."""
     verdicts = []
+    empty_ok_body_leaf = any(lf[1] in ("b", "bq", "bs") and re.search(lf[2], "") for lf in ref.leaves(ast))
     for facts, fl in zip(pool, flows):
         exp = ref.ev(ast, facts)
         verdicts.append(exp)
         ctx.count("total")
+        if empty_ok_body_leaf and facts["type"] == "http" and (facts["req_body"] == b"" or (facts["resp"] and facts["resp"]["body"] == b"")):
+            ctx.count("empty_matching_regex_on_empty_body")  # "present but empty" must be told from "absent"
         extra = {"parsed_before": parsed_before} if parsed_before else {}
         try:
             real = bool(flt(fl))
